@@ -449,8 +449,10 @@ fn judge(shard: &mut Shard, path: &str, kind: &str, shape: &Shape, accepted: boo
     shard.eval();
     shard.count(&format!("{path}:cases"));
     shard.seen(&format!("{path}:outcomes"), class);
-    shard.seen("corruptions", kind);
-    shard.count(&format!("{path}:kind:{kind}:{}", if accepted { "accepted" } else { "rejected" }));
+    for k in kind.split('+') {
+        shard.seen("corruptions", k);
+        shard.count(&format!("{path}:kind:{k}:{}", if accepted { "accepted" } else { "rejected" }));
+    }
     shard.max("subintents", (shape.nodes.len() - 1) as u64);
     if accepted {
         shard.count(&format!("{path}:accepted"));
@@ -461,6 +463,7 @@ fn judge(shard: &mut Shard, path: &str, kind: &str, shape: &Shape, accepted: boo
             // the depth-limit underflow for partial transactions under max depth 0 is its own class
             let underflow = shape.root_is_subintent && shape.max_subintent_depth == 0 && bad.iter().all(|b| *b == "too-deep");
             let sig = if underflow { "accepted-ill-formed:partial-root-with-max-depth-0-allows-any-depth".to_string() } else { format!("accepted-ill-formed:{}", bad.join("+")) };
+            shard.count(&format!("{path}:accepted_ill_formed"));
             shard.violation(sig, json!({"path": path, "corruption": kind, "oracle_failed": bad, "shape": shape.to_json(), "extra": extra}));
         }
     } else {
@@ -629,18 +632,18 @@ pub fn run(args: &Args) -> i32 {
     )
     .assume("mock IntentStructure implementations honour the trait contract: the reported ManifestYieldSummary has one counter per declared child")
     .assume("depth limit for a partial transaction (root is a subintent) is max_subintent_depth - 1, for a full transaction max_subintent_depth (doc comment of the config field)")
-    .floor("mock:accepted", args.tier.pick(20_000, 400_000))
-    .floor("mock:rejected_and_oracle_bad", args.tier.pick(20_000, 400_000))
-    .floor("real:accepted", args.tier.pick(1_000, 20_000))
-    .floor("real:rejected_and_oracle_bad", args.tier.pick(1_000, 20_000))
+    .floor("mock:accepted", args.tier.pick(200_000, 4_000_000))
+    .floor("mock:rejected_and_oracle_bad", args.tier.pick(200_000, 4_000_000))
+    .floor("real:accepted", args.tier.pick(20_000, 300_000))
+    .floor("real:rejected_and_oracle_bad", args.tier.pick(20_000, 300_000))
     .explain("Shapes with <=8 subintents: random trees plus self loops, 2-cycles, island cycles (each member keeps exactly one parent), islands, shared/missing/duplicated children, duplicated subintents, chains at the depth limit -1/0/+1, yield mismatches ±1, max depth 0..4, transaction and partial-transaction roots. Cycles are only expressible through mock trees (a real hash cannot contain itself).");
     if let Some(path) = &args.replay {
         return replay(args, spec, path);
     }
     let mut report = Report::new(args, spec);
     keys();
-    let mock_cap = scaled(args, args.tier.pick(40_000, 1_500_000));
-    let real_cap = scaled(args, args.tier.pick(2_500, 60_000));
+    let mock_cap = scaled(args, args.tier.pick(1_500_000, 40_000_000));
+    let real_cap = scaled(args, args.tier.pick(120_000, 2_000_000));
     report.run_shards(35_01, args.threads, Duration::from_secs(budget_secs(args.tier, 20, 300)), |_idx, rng, shard| {
         let mut done = 0;
         while done < mock_cap && !shard.time_up() {
